@@ -65,9 +65,10 @@ func (d *DynamicAttr) Cost() int {
 }
 
 func (d *DynamicAttr) ResolveAttr(ctx context.Context, name string) (Object, error) {
-	if d.value != nil {
-		return d.value, nil
-	}
+	// The attribute is resolved against the context of every access: the
+	// same module object can be used by evaluations that run with different
+	// contexts (another OS, other standard streams), so a value resolved for
+	// one of them must not be served to the next.
 	attr, err := d.fn(ctx, name)
 	if err != nil {
 		return nil, err
